@@ -537,8 +537,23 @@ def variants(tier):
     names = [n for n, _ in deviations()]
     out = [[]] + [[n] for n in names]
     if tier == "thorough":
-        out += [list(c) for c in itertools.combinations(names, 2)]
+        # (two deviations that hand the id 0 to two different elements cannot be combined: ids are unique within a scenario)
+        out += [list(c) for c in itertools.combinations(names, 2) if set(c) != {"incoming-id-zero", "lanelet-id-zero"}]
+        out = [v for v in out if _in_quantifier(v)]
     return out
+
+
+def _in_quantifier(names):
+    """the property quantifies over networks in which 'a stop line refers only to signs and lights its lanelet also references': combinations of
+    deviations that leave this class are not enumerated"""
+    if {"shared-reference-sets", "stopline-refs-none"} <= set(names):
+        return False      # (both rewrite the references of lanelets 2 and 3; with the shared set object lanelet 3 lists light 12 while its stop line names 13)
+    sp = variant(names)
+    for l in sp["lanelets"]:
+        sl = l.get("stop_line")
+        if sl and (set(sl.get("sign_ref") or []) - set(l.get("signs", [])) or set(sl.get("light_ref") or []) - set(l.get("lights", []))):
+            return False
+    return True
 
 
 def describe(tier):
